@@ -140,9 +140,8 @@ def must_paren(c, n, pos, PT):
                 if not (py > po or (py == po and right_o)):
                     return True
                 node = node[2]
-    if nk == "post":
-        if c[0] == "post": return True
-        if c[0] == "un" and c[2][0] != "post": return True
+    if nk == "post" and c[0] == "un":
+        return True          # a postfix operator applies to a primary, never to a prefix expression (postfix chains need none)
     return False
 
 def render_min(t, PT=None, rng=None, extra=0.0, spans=None, base=0):
